@@ -208,3 +208,15 @@ Theorem C04_an_emitted_location_slot_is_read_back_as_the_location :
              l_elev := l_elev l; l_oid := 0%N |}].
 Proof. exact an_emitted_location_slot_reads_back. Qed.
 Print Assumptions C04_an_emitted_location_slot_is_read_back_as_the_location.
+
+(* ... likewise the slot written for a unit-property set *)
+Theorem C04_an_emitted_unit_property_slot_is_read_back_as_the_set :
+  forall c slot i0,
+    cuwp_encode c = Ok slot ->
+    length (c_vs c) = 6%nat -> length (c_vu c) = 7%nat -> length (c_flags c) = 5%nat ->
+    cuwp_is_unused slot = false ->
+    uprp_decode_slots [slot] i0 =
+      Ok [{| c_hp := c_hp c; c_sh := c_sh c; c_en := c_en c; c_res := c_res c; c_hang := c_hang c; c_flags := c_flags c;
+             c_vs := c_vs c; c_vu := c_vu c; c_unk := c_unk c; c_pad := c_pad c; c_idx := Some (i0 + 1)%N |}].
+Proof. exact an_emitted_cuwp_slot_reads_back. Qed.
+Print Assumptions C04_an_emitted_unit_property_slot_is_read_back_as_the_set.
